@@ -45,14 +45,13 @@ def pFraming : P Framing := do
   let t ← tok
   if t == "eth" then pure .eth else if t == "raw" then pure .raw else if t == "null" then pure .null else failure
 
-def kfNames (fr : Framing) (p : Bytes) (ports : Bool) : List String :=
+def kfNames (fr : Framing) (p : Bytes) : List String :=
   let seenL : List String := match analyzerView .http p with
     | none => []
     | some v =>
       (if decide (KF.C18.looksLikeEthernet v.loc.fr p) then ["KF.C18.looksLikeEthernet"] else []) ++
       (if decide (KF.C18.nullFraming v.loc.fr) then ["KF.C18.nullFraming"] else []) ++
-      (if decide (KF.C18.versionNibble v.loc) then ["KF.C18.versionNibble"] else []) ++
-      (if ports && decide (KF.C18.ihlBelow5 v.loc) then ["KF.C18.ihlBelow5"] else [])
+      (if decide (KF.C18.versionNibble v.loc) then ["KF.C18.versionNibble"] else [])
   let wireL : List String :=
     if (wireEndpoints fr p).isSome then
       (if decide (KF.C18.looksLikeEthernet fr p) then ["KF.C18.looksLikeEthernet"] else []) ++
@@ -107,9 +106,8 @@ def pairOp (hs : Hasher) (impl : String) : P Verdict := do
     | (some a, some b) => if a == b then "same" else if a == b.swap then "rev" else
         if a.ver == b.ver && a.src == b.src then "src" else "other"
     | _ => "na"
-  let ports := hs != .tcp
   -- no class excuses an index out of range
-  let kf := if ok || !valid then [] else ((kfNames fr p₁ ports) ++ (kfNames fr p₂ ports)).eraseDups
+  let kf := if ok || !valid then [] else ((kfNames fr p₁) ++ (kfNames fr p₂)).eraseDups
   let hn := match hs with | .tcp => "t" | .http => "h" | .tls => "l"
   let tag := s!"pair-{hn}:{seenTag p₁}:A-{rel idA}:B-{rel idB}:" ++ hashTag p₁
   pure { modelEq := impl == model, specOk := some ok, kf := kf, tag := tag, model := model,
